@@ -39,7 +39,22 @@ pub struct BrCase {
 }
 
 fn world_strategy() -> impl Strategy<Value = WorldSpec> {
-    prop::collection::vec(c04_bank_strategy_pub(), 2..=2).prop_map(|mut banks| {
+    (prop::collection::vec(c04_bank_strategy_pub(), 2..=2), prop::bool::weighted(0.12), 1_000_000_000u64..2_000_000_000_000_000, 500u32..3000).prop_map(|(mut banks, staked, supply, rate_pm)| {
+        if staked {
+            // the collateral bank is a real staked-collateral bank (three oracle accounts), the debt bank is SOL-tagged
+            let mut feed = banks[1].oracle.clone();
+            if feed.kind != 1 {
+                feed = OracleSpec::pyth(feed.mant, feed.expo, (feed.mant as u64) / 400);
+            }
+            banks[1].oracle = feed.clone();
+            banks[1].asset_tag = 1;
+            banks[0].staked = Some(StakedSpec { supply, stake: ((supply as u128 * rate_pm as u128 / 1000) as u64).saturating_add(1_000_000_000) });
+            banks[0].oracle = OracleSpec { kind: 3, ..feed };
+            banks[0].asset_tag = 2;
+            banks[0].token = 0;
+            banks[0].decimals = 9;
+            banks[0].aw_i = banks[0].aw_i.min(1_000_000);
+        }
         for (i, b) in banks.iter_mut().enumerate() {
             // the collateral bank keeps its generated collateral-value cap (an initial-weight discount only)
             if i != 0 {
@@ -207,7 +222,7 @@ pub const C10_SYMS: &[&str] = &["cb", "sA", "sV", "eA", "eV", "wA", "rA", "bA", 
 // "feV&A" = end for account V with account U appended as a trailing (ignored) remaining account;
 // "feA0" / "feA1" = a genuine end for U whose observation accounts are missing altogether / lack the borrowed bank
 // (the risk engine cannot be built: the end must fail, never pass unchecked)
-pub const C11_SYMS: &[&str] = &["fs0", "fs1", "fs2", "fs3", "fs4", "fs9", "feA", "feV", "bBig", "bSm", "wBig", "dA", "rAll", "lqA", "bkA", "sA", "eA", "tA", "cA", "p:fs2", "p:feA", "p:bBig", "cb", "feV&A", "feA+", "fsH0", "fsH1", "fsG1", "feA0", "feA1"];
+pub const C11_SYMS: &[&str] = &["fs0", "fs1", "fs2", "fs3", "fs4", "fs9", "feA", "feV", "bBig", "bSm", "wBig", "dA", "rAll", "lqA", "bkA", "sA", "eA", "tA", "cA", "p:fs2", "p:feA", "p:bBig", "cb", "feV&A", "feA+", "fsH0", "fsH1", "fsG1", "feA0", "feA1", "tP"];
 
 /// end index named by a flash-loan start symbol: "fs<k>" = k, "fsH<k>" = 65536 + k, "fsG<k>" = 2^32 + k
 /// (indices that alias position k if the program narrows the 64-bit argument to 16 / 32 bits)
@@ -312,6 +327,8 @@ fn build_ix(p: &Prep, sym: &str) -> Instruction {
             ix
         }
         "cA" => w.ix_close_account(ua, p.u.auth),
+        // the PDA flavour of the account transfer (moves positions AND the flag word to a new PDA account)
+        "tP" => w.ix_transfer_account_pda(ua, p.u.auth, p.u.auth, 3),
         _ => foreign_ix(noop_ids()[1], vec![0u8; 8]),
     }
 }
@@ -757,7 +774,7 @@ pub fn run_case(c: &BrCase, c10: bool, stats: &mut Stats, shard: Option<(usize, 
 }
 
 const RULE_C10: &str = "per generated world (2 banks; generated decimals, token programs, weights, oracles; a borrower steered to a generated maintenance health, mostly liquidatable, sometimes healthy; liquidation records created): EXHAUSTIVE enumeration of all transaction shapes up to the stated length over the 27-symbol alphabet (incl. trailing-byte variants of start/end, a start whose observation accounts lack the collateral bank and an end without observation accounts) {compute-budget, start(U), start(V), end(U), end(V), withdraw(U) by third party, big withdraw, repay(U), borrow(U), deposit(U), init-record, kamino-refresh (whitelisted), allowed-program swap, short-data ix, unknown-program ix, flash start/end, and start/end/withdraw/repay via CPI from an allow-listed proxy program} plus random longer shapes; every shape executed as one atomic transaction through the real entry point. Commit-time oracle: no receivership flag / receiver survives; if a third party controlled the account then the shape is in the language written from the statement (start first after compute/whitelisted, end last, only withdraw/repay/record-init between, allowed programs, no CPI), the account was not healthy, health not worse, not ended healthy and premium <= max(fee,5%) unless equity < $5 (definite breaches on enclosures, under both price readings). Non-trivial = committed transactions in which a third party controlled the account; distinct by (shape, world hash).";
-const RULE_C11: &str = "per generated world (account normal / frozen / disabled-by-transfer): EXHAUSTIVE enumeration of all transaction shapes up to the stated length over the 30-symbol alphabet (incl. an end for another account that merely lists U, a trailing-byte end, and ends whose observation accounts are missing or lack the borrowed bank) {flash start naming end index 0,1,2,3,4,9 and 65536+0, 65536+1, 2^32+1 (aliases of 0 / 1 under 16- / 32-bit narrowing); end(U); end(V); big borrow (unhealthy); small borrow; big withdraw; deposit; repay_all; classic liquidate(U); bankruptcy(U); start_liquidation(U); end_liquidation(U); transfer(U); close(U); start/end/borrow via CPI; compute-budget} plus random longer shapes, each executed atomically. Oracle: per executed instruction — a start that set the flag named a later end(U) of this program, was top-level, on an unflagged account, not nested; liquidation/bankruptcy/start_liquidation never succeed on a flagged account; at commit — no flash-loan flag survives, and if an action inside left the account initially unhealthy (reference model) then an end(U) follows and the account is not unhealthy at commit. Non-trivial = committed transactions containing a borrow/withdraw that skipped the health check.";
+const RULE_C11: &str = "per generated world (account normal / frozen / disabled-by-transfer): EXHAUSTIVE enumeration of all transaction shapes up to the stated length over the 31-symbol alphabet (incl. an end for another account that merely lists U, a trailing-byte end, and ends whose observation accounts are missing or lack the borrowed bank) {flash start naming end index 0,1,2,3,4,9 and 65536+0, 65536+1, 2^32+1 (aliases of 0 / 1 under 16- / 32-bit narrowing); end(U); end(V); big borrow (unhealthy); small borrow; big withdraw; deposit; repay_all; classic liquidate(U); bankruptcy(U); start_liquidation(U); end_liquidation(U); transfer(U); close(U); start/end/borrow via CPI; compute-budget} plus random longer shapes, each executed atomically. Oracle: per executed instruction — a start that set the flag named a later end(U) of this program, was top-level, on an unflagged account, not nested; liquidation/bankruptcy/start_liquidation never succeed on a flagged account; at commit — no flash-loan flag survives, and if an action inside left the account initially unhealthy (reference model) then an end(U) follows and the account is not unhealthy at commit. Non-trivial = committed transactions containing a borrow/withdraw that skipped the health check.";
 
 pub fn run(ctx: &Ctx, c10: bool) -> Report {
     let worlds: u32 = if c10 { ctx.tier.pick(4, 10) } else { ctx.tier.pick(6, 12) };
